@@ -444,6 +444,84 @@ func (g *vmCallGraph) fromReport(fn *ssa.Function) bool {
 	return down(dump)
 }
 
+// loopState (V0): the handlers of the run loop work on the machine state the
+// rules know -- the current context, its memory, the instruction pointer, the
+// temp register -- and on the free list of contexts. Any further variable that
+// the run loop carries from one instruction to the next is unknown to every
+// rule: a handler that consults or changes one behaves in a way that depends
+// on which instructions ran before (a frame header remembered by FUNC, seed
+// C04-J), and is reported as such rather than judged on the paths that happen
+// not to use it. The free list may be a loop variable of its own (a slice of
+// contexts): it is used by the context handlers only.
+func (r *ruler) loopState() {
+	ctxPtrT := r.m.VarOf["ctxp"].Type()
+	known := map[ssa.Value]bool{}
+	for _, n := range []string{"ctxp", "m", "ip", "tmp"} {
+		known[r.m.VarOf[n]] = true
+	}
+	typeOf := map[string]types.Type{}
+	for _, ins := range r.m.Header.Instrs {
+		if ph, ok := ins.(*ssa.Phi); ok && !known[ph] {
+			typeOf["LOOPVAR."+ph.Comment] = ph.Type()
+		}
+	}
+	if len(typeOf) == 0 {
+		r.s.OK("V0", "vm.Run / no loop-carried state beyond the machine state", r.pos, "the run loop carries the context, the memory, the instruction pointer and the temp register only")
+		return
+	}
+	isFreeList := func(name string) bool {
+		t, ok := typeOf[name]
+		if !ok {
+			return false
+		}
+		st, ok := t.Underlying().(*types.Slice)
+		return ok && types.Identical(st.Elem(), ctxPtrT)
+	}
+	ctxOps := map[string]bool{"CCONT": true, "DCONT": true, "RCONT": true}
+	bad := 0
+	for _, op := range r.ops() {
+		for _, pa := range r.m.Paths[op] {
+			var texts []string
+			texts = append(texts, pa.Conds...)
+			for _, ev := range pa.Events {
+				texts = append(texts, ev.Args...)
+				texts = append(texts, ev.Res)
+			}
+			for nm, v := range pa.Final {
+				if k := absint.Key(v); k != "LOOPVAR."+nm { // carried round unchanged
+					texts = append(texts, k)
+				}
+			}
+			hit := ""
+			for _, t := range texts {
+				for name := range typeOf {
+					if strings.Contains(t, name) && !(isFreeList(name) && ctxOps[op]) {
+						hit = name
+						if os.Getenv("CALCSA_DEBUG_V0") != "" {
+							println("V0 hit", op, t)
+						}
+					}
+				}
+			}
+			if hit != "" {
+				bad++
+				if bad <= 3 {
+					r.s.Unk("V0", r.key(op, "uses loop-carried state the rules do not know ("+strings.TrimPrefix(hit, "LOOPVAR.")+")"), r.ppos(pa), "the handler consults or changes a variable the run loop carries from one instruction to the next besides the context, the memory, the instruction pointer, the temp register and the free list: what the instruction does then depends on which instructions ran before it, and no rule here models that", pa.Describe()...)
+				}
+				break
+			}
+		}
+	}
+	if bad == 0 {
+		var names []string
+		for n := range typeOf {
+			names = append(names, strings.TrimPrefix(n, "LOOPVAR."))
+		}
+		sort.Strings(names)
+		r.s.OK("V0", "vm.Run / no loop-carried state beyond the machine state", r.pos, "further loop variables ("+strings.Join(names, ", ")+") are used as the free list of contexts by the context handlers only")
+	}
+}
+
 func (r *ruler) okIf(rule, key string, pa *Path, ok bool, good, bad string) {
 	if ok {
 		r.s.OK(rule, key, r.ppos(pa), good)
